@@ -153,6 +153,11 @@ def case_cond(seed, out, spec, wd):
         else:
             metrics = [MetricDefinition('m%d' % i, 'gauge', [], e) for i, e in enumerate(exprs)] or [
                 MetricDefinition('m0', 'counter')]
+    # a collecting tracepoint may carry a metric as well: both actions are gated by the one condition
+    companion = kind == 'snapshot' and 'condition' in args and r.chance(0.4)
+    if companion:
+        metrics = [MetricDefinition('companion', 'counter')]
+        out.count('snapshot_with_companion_metric')
     trig = line_trigger('tp', base, line, args, watches, metrics)
     rig = Rig(custom={}, host_dir=wd, plugins=[plugins.RecLogger(), plugins.RecMetrics()])
     rig.install([trig])
@@ -248,6 +253,12 @@ def case_cond(seed, out, spec, wd):
                 rejected_then_due = True
         elif allowed and not ok:
             seen_reject = True
+    if companion and sorted(set(mets)) != due:
+        extra = [h for h in sorted(set(mets)) if h not in due]
+        mech = 'condition:collected-on-false' if any(truth[h][0] is False for h in extra if h < len(truth)) else \
+            'condition:companion-metric-differs'
+        out.violation(mech, 'the metric of the same tracepoint was reported at hits %s, its snapshots are due at %s '
+                            '(condition %r)' % (sorted(set(mets)), due, args.get('condition')), witness, replay)
     actual = sorted(set(acted))
     if len(acted) != len(set(acted)) and kind != 'metric':
         out.violation('condition:collected-twice', 'one hit produced two %s actions' % kind, witness, replay)
